@@ -100,6 +100,10 @@ def zoo():
     out.append(('rect2d-2', rect, 0))
     dimer = crystal.Crystal(np.eye(3) * 1., [np.zeros(3), np.array([.2, 0., 0.])])
     out.append(('dimer', dimer, 0))
+    # multi-site, 2-D and low-symmetry cells early, so that a budget-limited quick run still sees them
+    order = ['sc', 'hcp', 'honeycomb2d', 'fcc', 'b2', 'diamond', 'square2d', 'triclinic2', 'bcc', 'tri2d', 'hcp-oct',
+             'tet3', 'mono2', 'rect2d-2', 'dimer', 'b2-B', 'hcp-oct-Ti']
+    out.sort(key=lambda t: order.index(t[0]) if t[0] in order else len(order))
     return out
 
 
@@ -406,7 +410,7 @@ class Batch:
     """Collects request lines and the callbacks that judge the answers.  `flush()` closes the current session
     (one driver process per session, sessions start with a `crys` line); `finish()` runs all sessions on a
     thread pool and then the callbacks, in order."""
-    WORKERS = 6
+    WORKERS = 8
 
     def __init__(self, ctx, driver):
         self.ctx, self.driver, self.lines, self.cb, self.sessions = ctx, driver, [], [], []
@@ -495,6 +499,18 @@ def check_impl_output(ctx, B, E, S, what, replay):
 def is_G_closed(E, J):
     Js = set(J)
     return all(E.act(op, s) in Js for s in Js for op in E.ops)
+
+
+def is_proper(E, classes):
+    """every class is closed under the group and under reversal, no jump is listed twice, none is zero:
+    what crys.jumpnetwork produces (the domain of the statements about jump types)"""
+    flat = [s for c in classes for s in c]
+    if len(set(flat)) != len(flat) or any(iszero(s) for s in flat): return False
+    for c in classes:
+        cs = set(c)
+        if any((s[1], s[0], -s[2], -s[3], -s[4]) not in cs for s in cs): return False
+        if any(E.act(op, s) not in cs for s in cs for op in E.ops): return False
+    return True
 
 
 def malform(rng, E, classes):
@@ -657,7 +673,9 @@ def _exact_or_note(ctx, crys, chem, name):
 
 
 def run(ctx, search_mode=False):
+    import time
     rng = ctx.rng
+    t_run = time.time()
     B = Batch(ctx, DRIVER)
     crystals = list(zoo())
     nrand = (4 if ctx.quick else 40) * (3 if search_mode else 1)
@@ -665,8 +683,8 @@ def run(ctx, search_mode=False):
         rc = random_crystal(rng)
         if rc is not None: crystals.append(rc)
     Nmax = 2 if ctx.quick else 3
-    for name, crys, chem in crystals:
-        if ctx.budget_left() < (90 if ctx.quick else 600):
+    for ncrys, (name, crys, chem) in enumerate(crystals):
+        if ncrys >= 4 and (time.time() - t_run > (25 if ctx.quick else 600) or ctx.budget_left() < (50 if ctx.quick else 500)):
             ctx.note('budget: stopped before ' + name); break
         E = _exact_or_note(ctx, crys, chem, name)
         if E is None: continue
